@@ -1,4 +1,4 @@
-From InfOCF Require Import Core Tol SysZ SysW Lex Kz Form Model Spec Diag.
+From InfOCF Require Import Core Tol SysZ SysW Lex Kz Form Model Spec Diag Mcs Cnf.
 (* Entry points evaluated by the correspondence check (extracted to OCaml, or by vm_compute). *)
 Definition is_none {A} (o:option A) : bool := match o with None => true | Some _ => false end.
 
@@ -33,3 +33,9 @@ Definition run_case (n:nat) (weakly:bool) (D qs:list cond) :
 
 Definition run_diag (n:nat) (extended uses_facts:bool) (facts:list form) (D:list cond) : option diag :=
   diagnostics n extended uses_facts facts D.
+
+(* C15 *)
+Definition run_faithful (nv:nat) (amap:list nat) (f:form) (c:cnf) : bool := check_faithful nv amap f c.
+Definition run_mcs (nv:nat) (hard:cnf) (g:groups) : list (list nat) * option (list (list nat)) :=
+  (map (keys_of_bv g) (mcs_clause nv hard g),
+   match mcs_loop nv hard g with Some r => Some (map (keys_of_bv g) (remove_supersets r)) | None => None end).
